@@ -781,6 +781,13 @@ func (o captureOpener) UDPCanReuseLocal() bool { return true }
 // sockets, and hands the bytes to a configured peer B.
 func c12BFDCaptured(r *mon.Run, rng *rand.Rand, idx int) {
 	wa, wb, ifA, ifB := genPairCfg(rng, idx, true)
+	// every external link of A runs BFD: several independent sender goroutines (the
+	// race detector sees any state they share)
+	for i := range wa.Ifs {
+		if wa.Ifs[i].Owned {
+			wa.Ifs[i].BFD = true
+		}
+	}
 	var mu sync.Mutex
 	var got []capturedPkt
 	lc := wa.local()
